@@ -133,6 +133,7 @@ CHECKS["C03"] = {
 TECH_E2 = "explicit-state breadth-first search over operation histories on the real objects (state = history replayed on fresh objects, de-duplicated on the full private state), run to fixpoint or a stated depth"
 
 CHECKS["C11"] = {
+    "deadline": {"quick": 1500, "thorough": 4800},
     "engine": "E2 history explorer",
     "jobs": lambda tier: [job("C11.cpp", "C11_w%d" % w, ["-DVWORLD=%d" % w], shards=1) for w in range(6)],
     "rule": "state = operation history over {update with 6 data sets (same shape / other segment count / other coefficient count / two invalid), evaluate at orders 0/1/top/beyond, hinted evaluate, derivative trajectory, copy-assign, copy-construct, self-assign, swap roles, ...} for PPolyND<2,Dynamic>, PPolyND<2,8>, PPolyND<1,12>, and {update via both overloads with 4 problems, evaluate trajectory, getTrajectoryCopy, copy-assign/construct spline, update copy, propagateGrad, ...} for the three spline classes; after EVERY transition every live object must evaluate (all orders, probe grid, plain + hinted) bit-identically to a fresh object built from its own latest data; distinct = distinct canonical keys (entire private state incl. lazy caches and ready flags); non-trivial = histories of length >= 2 PPolyND worlds: self-aliased updates (the object's own breakpoints / coefficients handed back with the other argument from another data set), a fixed absolute probe time for the history's evaluate operations (checked first); spline worlds: a trajectory reference taken once before all updates is observed first.",
@@ -154,6 +155,7 @@ def c10_jobs(tier):
 
 CHECKS["C10"] = {
     "engine": "E2 history explorer",
+    "deadline": {"quick": 1500, "thorough": 4800},
     "jobs": c10_jobs,
     "rule": "state = history over {update by durations / by time points with 5 problems (N = 1, 2, 3, 5 whose durations are bit-identical prefixes of one another, and N = 3' with other durations), getEnergy, getEnergyGrad, partial gradients, propagateGrad(unit / dense), evaluate grid} and hinted evaluations that keep the caller-held hint across updates (inside the first segment / every knot ascending / end time) on one spline object; after EVERY transition ALL observables (evaluations of the long-lived object go through the hinted overload starting from the current hint; the fresh object is queried un-hinted) (coefficients, knot times, energy, energy gradients, partials, propagateGrad for two upstream vectors, evaluations at all orders) are compared bitwise with a freshly constructed spline given only the latest inputs; canonical key = every private member incl. factor caches and workspaces; optimizer workspaces: one Workspace shared by evaluations of four optimizers (A: N=2 / B: N=4 / C: N=2 with other data, flags, start time and energy weight / D: identical to A except for the FIXED boundary accelerations/jerk, evaluated at A's bit-identical decision vectors) x 2 decision vectors x {2-cost, 3-cost overload}: after EVERY history every possible next call on the reused workspace equals the same call on a fresh workspace (cost, gradient, workspace spline; bitwise); non-trivial = histories of length >= 2 The long-lived spline is observed through the hinted overloads from the caller-held hint and through the REFERENCE-OUTPUT overloads handed used caller objects (exactly fitting dirty buffer, buffer of a larger problem, Gradients filled for N + 2); a sixth problem has the N = 3 problem's end knots and other inner knots.",
     "bounds": {"quick": "splines: 3 orders x DIM {1,3,4}: BFS to depth 6 or fixpoint; workspaces: 3 orders, BFS to depth 4; optimizer objects (setter/query/re-initialisation histories, fresh-object oracle): 3 orders, BFS to depth 5", "thorough": "splines: BFS to depth 10 or fixpoint; workspaces: 3 orders, BFS to depth 5 or fixpoint; optimizer objects: BFS to depth 8 or fixpoint"},
